@@ -85,7 +85,7 @@ pub fn run(args: &Args, out: &mut dyn Write) -> Stats {
     let g = GenCfg { depth: 3, width: 3, addr_items: true, cond8: 6 };
     let mut i = 0;
     while i < args.n {
-        let (mut c, w) = gen_conf(&mut r, &g, (22, 30));
+        let (mut c, w) = gen_conf(&mut r, &g, (22, 29));
         let (req0, net) = gen_req(&mut r, &w, &c);
         let k = r.range(0, 3);
         for _ in 0..k {
